@@ -67,7 +67,10 @@ theorem roundtrip_index (m : MRS) (hN : BaseIdsDistinct m) (hR : RolesOk m = tru
         obtain ⟨a, ha, har⟩ := hq2
         have har : a.1 = RESTRICTION_ROLE := by simpa using har
         cases ps.origin a ha with
-        | arg0 h => rw [h] at har; exact absurd har (by decide)
+        | arg0 h =>
+          rw [h] at har
+          have har' : INTRINSIC_ROLE = RESTRICTION_ROLE := har
+          exact absurd har' (by decide)
         | ns x hx hid' hr hv =>
           obtain ⟨l, hl, rfl, _⟩ := C.spec.nsMem x hx
           exact noRstr l hl hid' (by rw [← har, hr])
@@ -90,7 +93,7 @@ theorem roundtrip_index (m : MRS) (hN : BaseIdsDistinct m) (hR : RolesOk m = tru
     rw [hk] at hek2
     cases hek2
     rw [hiv'] at hek2iv
-    cases hek2iv
+    simp only [Option.some.injEq] at hek2iv
     have hjq : n.id ∉ quantStarts d := by
       rw [hid]; exact not_quantStart_of_nonquant m hN reps d C.hreps h1 j' e hej hq
     have hkq : nk.id ∉ quantStarts d := by
@@ -121,7 +124,7 @@ theorem roundtrip_index (m : MRS) (hN : BaseIdsDistinct m) (hR : RolesOk m = tru
       have := isQuantifier_of_rstr e' v hv
       rw [hq'] at this; cases this
     have hnn : nk = n := C.spec.ivInj nk (List.mem_of_getElem? hnk) n (List.mem_of_getElem? hn)
-      hkq hjq ivk ivk psk.ivOk ps.ivOk rfl
+      hkq hjq ivk iv psk.ivOk ps.ivOk (by rw [← hek2iv])
     rw [hnn, hid] at hidk
     exact (nidAt_inj _ _ hidk).symm
 
